@@ -143,17 +143,8 @@ def component_aware(rep):
         rep.ob("O6.4", "SHAPE", fi, False, "if hcc < pcc: return _find_all_subgraph_mappings(...)",
                "with fewer host components than pattern components the exhaustive set is returned")
     else:
-        try:
-            bad = []
-            for h in range(0, 4):
-                for p in range(1, 4):
-                    got = bool(eval_expr(fb.test, {"hcc": h, "pcc": p}))
-                    if got != (h < p):
-                        bad.append((h, p, got))
-            rep.ob("O6.4", "SHAPE", fi, not bad, fb.test, "exhaustive fallback is taken exactly when hcc < pcc",
-                   {"disagreements(hcc,pcc,taken)": bad[:4]}, node=fb)
-        except Undecided as exc:
-            rep.ob("O6.4", "SHAPE", fi, None, fb.test, f"fallback condition not evaluable: {exc}", node=fb)
+        verdict, facts = fallback_condition(fi, fb.test)
+        rep.ob("O6.4", "SHAPE", fi, verdict, fb.test, "exhaustive fallback is taken exactly when the host has fewer connected components than the pattern", facts, node=fb)
         c = fb.body[0].value
         callee = rep.f(SM, ENG + STRATS[0])
         names = [norm(a) for a in c.args]
@@ -212,6 +203,71 @@ def component_aware(rep):
         gs = [(norm(t).replace(" ", ""), s) for t, s in guards_of(parent_map(bt.node), c, bt.node)]
         rep.ob("O6.4", "SHAPE", bt, ("level==pcc", True) in gs, f"append under {gs}",
                "a combined mapping is emitted only when every pattern component is placed", node=c)
+
+
+def _count_of(fi, defs, expr):
+    """('HOST'|'PATTERN'|None, exact) when expr is the number of connected components of host / pattern.
+    exact=False if the counted list was filtered or re-bound (it is then not *the* component list)."""
+    e = expr
+    if isinstance(e, ast.Name):
+        ds = defs.get(e.id, [])
+        if len(ds) == 1 and ds[0].index is not None and isinstance(ds[0].value, ast.Tuple):
+            e = ds[0].value.elts[ds[0].index[0]]
+        elif len(ds) == 1 and ds[0].kind == "assign":
+            e = ds[0].value
+        else:
+            return None, False
+    if not (isinstance(e, ast.Call) and isinstance(e.func, ast.Name) and e.func.id == "len" and e.args):
+        return None, False
+    lst = e.args[0]
+    if not isinstance(lst, ast.Name):
+        return None, False
+    ds = [d for d in defs.get(lst.id, []) if d.kind != "param"]
+    exact = len(ds) == 1
+    who = None
+    for d in ds:
+        v = d.value
+        if isinstance(v, ast.ListComp):
+            src = norm(v.generators[0].iter)
+            if "connected_components(host)" in src:
+                who = "HOST"
+            elif "connected_components(pattern)" in src:
+                who = "PATTERN"
+            if v.generators[0].ifs:
+                exact = False
+        elif isinstance(v, ast.Call) and "connected_components" in norm(v):
+            who = "HOST" if "(host)" in norm(v) else ("PATTERN" if "(pattern)" in norm(v) else who)
+        else:
+            exact = False
+    return who, exact
+
+
+def fallback_condition(fi, test):
+    """True iff `test` == (#components(host) < #components(pattern)) on exact component counts"""
+    defs = local_defs(fi.node)
+    if not (isinstance(test, ast.Compare) and len(test.ops) == 1):
+        return None, {"why": "not a single comparison"}
+    l, r = test.left, test.comparators[0]
+    wl, xl = _count_of(fi, defs, l)
+    wr, xr = _count_of(fi, defs, r)
+    facts = {"left": norm(l), "left_counts": wl, "left_exact": xl, "right": norm(r), "right_counts": wr, "right_exact": xr}
+    if {wl, wr} != {"HOST", "PATTERN"}:
+        return None, facts
+    if not (xl and xr):
+        facts["why"] = "the compared count is taken from a filtered / re-bound component list, not from the host's (pattern's) component list"
+        return False, facts
+    try:
+        bad = []
+        for h in range(0, 4):
+            for p in range(1, 4):
+                env = {norm(l): h if wl == "HOST" else p, norm(r): h if wr == "HOST" else p}
+                if bool(eval_expr(test, env)) != (h < p):
+                    bad.append((h, p))
+        facts["disagreements(h,p)"] = bad[:4]
+        return (not bad), facts
+    except Undecided as exc:
+        facts["why"] = str(exc)
+        return None, facts
 
 
 def _all_paths_release(cfg, src, dst, releases) -> bool:
